@@ -27,11 +27,35 @@ fn floor_member() -> D {
     d
 }
 
+/// members of the generic-real 4x4 lattice (thorough tier) on which BiCG stalls above tol = 1e-12 or breaks down (same class as
+/// `floor_member`): off-diagonal parts, the diagonal follows from the lattice rule with the (+,-,+,+) sign pattern; right-hand side index
+fn floor_members_4() -> Vec<(D, usize)> {
+    let offs: Vec<([[f64; 4]; 4], usize)> = vec![
+        ([[0.0, -0.3, 0.7, 0.0], [0.0, 0.0, -0.3, -0.3], [0.7, 0.7, 0.0, 0.7], [-0.3, 0.7, 0.0, 0.0]], 0),
+        ([[0.0, 0.7, 0.7, 0.0], [0.0, 0.0, 0.7, 0.0], [0.0, 0.0, 0.0, 0.7], [0.7, 0.0, 0.7, 0.0]], 0),
+        ([[0.0, -0.3, -0.3, -0.3], [-0.3, 0.0, -0.3, -0.3], [0.0, 0.7, 0.0, 0.0], [0.0, 0.0, 0.7, 0.0]], 1),
+        ([[0.0, 0.7, 0.0, -0.3], [-0.3, 0.0, -0.3, 0.7], [0.7, 0.0, 0.0, -0.3], [0.0, -0.3, 0.7, 0.0]], 0),
+        ([[0.0, 0.0, -0.3, 0.7], [0.0, 0.0, -0.3, 0.0], [0.7, 0.7, 0.0, 0.7], [-0.3, -0.3, -0.3, 0.0]], 0),
+    ];
+    offs.into_iter()
+        .map(|(o, ri)| {
+            let mut d: D = o.iter().map(|r| r.to_vec()).collect();
+            for i in 0..4 {
+                let s: f64 = (0..4).filter(|&j| j != i).map(|j| d[i][j].abs()).sum();
+                d[i][i] = (1.3 * s + 0.37) * if i == 1 { -1.0 } else { 1.0 };
+            }
+            (d, ri)
+        })
+        .collect()
+}
+
 /// strictly dominant nonsymmetric 3x3 systems whose entries are NOT dyadic (every operation rounds, so no step is an exact
 /// Lanczos breakdown and the recurrence residuals drift): every off-diagonal word over the letters, two diagonal sign patterns,
 /// two right-hand sides, zero guess, the non-CG solvers at tol 1e-12 and 1e-8
 fn generic_real_space(ctx: &Ctx, letters: &[f64], words: Option<(String, Vec<Vec<usize>>)>) {
-    let n = 3usize;
+    generic_real_space_n(ctx, 3, letters, words)
+}
+fn generic_real_space_n(ctx: &Ctx, n: usize, letters: &[f64], words: Option<(String, Vec<Vec<usize>>)>) {
     let l = letters.len() as u64;
     let lt = letters.to_vec();
     let (wname, wlist) = match words {
@@ -40,14 +64,14 @@ fn generic_real_space(ctx: &Ctx, letters: &[f64], words: Option<(String, Vec<Vec
     };
     let nwords = match &wlist {
         Some(w) => w.len() as u64,
-        None => pow(l, 6),
+        None => pow(l, (n * (n - 1)) as u32),
     };
     ctx.lattice(
-        &format!("generic-real strictly dominant 3x3: {} over {:?}, diagonal = +-(1.3 row sum + 0.37) with signs (+,+,+) / (+,-,+); 2 rhs x tol {{1e-12,1e-8}} x BiCG (itol 1, 2), BiCGSTAB, QMR", wname, letters),
+        &format!("generic-real strictly dominant {n}x{n}: {} over {:?}, diagonal = +-(1.3 row sum + 0.37) with signs (+,+,+) / (+,-,+); 2 rhs x tol {{1e-12,1e-8}} x BiCG (itol 1, 2), BiCGSTAB, QMR", wname, letters),
         nwords * 2,
         |idx| format!("offdiag#{} signs#{}", idx / 2, idx % 2),
         |idx, acc| {
-            let mut dg = vec![0usize; 6];
+            let mut dg = vec![0usize; n * (n - 1)];
             match &wlist {
                 Some(w) => dg = w[(idx / 2) as usize].clone(),
                 None => digits_uniform(idx / 2, l, &mut dg),
@@ -75,7 +99,7 @@ fn generic_real_space(ctx: &Ctx, letters: &[f64], words: Option<(String, Vec<Vec
             let ainv = kappa / norm_inf_mat(&d);
             // (right-hand sides with zero entries were tried: on reducible members they give exact Lanczos breakdowns - the known-finding
             // class - in all three Lanczos-type solvers, 18 969 failures on the unchanged tree, so they are not part of this lattice)
-            let bs: Vec<Vec<f64>> = vec![vec![0.9184622128670501, 0.006907651164131723, 0.5234778673726308], matvec(&d, &[1.0, -0.5, 2.0])];
+            let bs: Vec<Vec<f64>> = vec![[0.9184622128670501, 0.006907651164131723, 0.5234778673726308, -0.3318250634131724][..n].to_vec(), matvec(&d, &[1.0, -0.5, 2.0, 0.75][..n])];
             for (ri, b) in bs.iter().enumerate() {
                 let exact = match lu_solve(&d, &[b.clone()]) {
                     Some(v) => v[0].clone(),
@@ -85,7 +109,7 @@ fn generic_real_space(ctx: &Ctx, letters: &[f64], words: Option<(String, Vec<Vec
                 for &tol in [1e-12, 1e-8].iter() {
                     for &s in [Solver::Bicg1, Solver::Bicg2, Solver::Bicgstab, Solver::Qmr].iter() {
                         acc.hit("solver runs");
-                        if matches!(s, Solver::Bicg1 | Solver::Bicg2) && ri == 1 && tol == 1e-12 && d == floor_member() {
+                        if matches!(s, Solver::Bicg1 | Solver::Bicg2) && tol == 1e-12 && ((n == 3 && ri == 1 && d == floor_member()) || (n == 4 && floor_members_4().iter().any(|(m, r)| *r == ri && *m == d))) {
                             acc.hit("member listed as a known finding (judged in its own space)");
                             continue;
                         }
@@ -515,6 +539,7 @@ fn main() {
             generic_real_space(&ctx, &g6, Some(("<= 2 deviations from three former QMR-stagnation members".to_string(), words)));
         } else {
             generic_real_space(&ctx, &g6, None);
+            generic_real_space_n(&ctx, 4, &[0.0, 0.7, -0.3], None);
         }
     }
     qmr_restart_cases(&ctx);
@@ -617,13 +642,29 @@ fn main() {
                 Err(e) => Err(format!("no success within {} iterations (Err({:e})); x = {:?}", iteration_cap(3), e, x.vec)),
             }
         };
-        ctx.known_cases(
-            "listed inputs: BiCG accuracy floor after a near breakdown",
-            vec![
-                ("bicg-floor itol=1 A=[[1.085,0.55,0],[0.123,-0.9199,-0.3],[0.55,0.55,1.8]] b=A(1,-0.5,2) tol=1e-12".to_string(), Box::new(move || floor(1))),
-                ("bicg-floor itol=2 A=[[1.085,0.55,0],[0.123,-0.9199,-0.3],[0.55,0.55,1.8]] b=A(1,-0.5,2) tol=1e-12".to_string(), Box::new(move || floor(2))),
-            ],
-        );
+        let mut cases: Vec<(String, Box<dyn Fn() -> Result<(), String> + Sync + Send>)> = vec![
+            ("bicg-floor itol=1 A=[[1.085,0.55,0],[0.123,-0.9199,-0.3],[0.55,0.55,1.8]] b=A(1,-0.5,2) tol=1e-12".to_string(), Box::new(move || floor(1))),
+            ("bicg-floor itol=2 A=[[1.085,0.55,0],[0.123,-0.9199,-0.3],[0.55,0.55,1.8]] b=A(1,-0.5,2) tol=1e-12".to_string(), Box::new(move || floor(2))),
+        ];
+        // the five members of the generic-real 4x4 lattice (thorough tier), both error measures
+        for (k, (d, ri)) in floor_members_4().into_iter().enumerate() {
+            for itol in [1usize, 2] {
+                let d = d.clone();
+                cases.push((
+                    format!("bicg-floor-4x4 #{} itol={}", k, itol),
+                    Box::new(move || {
+                        let a = sparse_of(&d, 0);
+                        let b = if ri == 0 { vec![0.9184622128670501, 0.006907651164131723, 0.5234778673726308, -0.3318250634131724] } else { matvec(&d, &[1.0, -0.5, 2.0, 0.75]) };
+                        let mut x = Vector::create(vec![0.0; 4]);
+                        match a.solve_bicg(&Vector::create(b), &mut x, iteration_cap(4), 1e-12, itol) {
+                            Ok(_) => Ok(()),
+                            Err(e) => Err(format!("A = {:?}: no success within {} iterations (Err({:e})); x = {:?}", d, iteration_cap(4), e, x.vec)),
+                        }
+                    }),
+                ));
+            }
+        }
+        ctx.known_cases("listed inputs: BiCG accuracy floor after a near breakdown", cases);
     }
     std::process::exit(ctx.finish());
 }
